@@ -45,7 +45,8 @@ def names_of(flist):
 def run_scenario(chk, sc, cfgseed, fields, axes):
     from amr_kitchen.mandoline import Mandoline
     rng = random.Random(cfgseed)
-    cfg_ = gamma.Config.draw(rng, ndims=2, payload="tame")
+    # every third configuration states its geometry with six significant digits (rounded cell sizes whose ratios are not exact)
+    cfg_ = gamma.Config.draw(rng, ndims=2, payload="tame", numfmt="g6" if cfgseed % 3 == 0 else "repr")
     lat = lattice.Lattice(sc["mesh"], sc["n1"], sc["n2"], axes=axes, ndims=2,
                           # cells per lattice cell: drawn; at least three cells along each axis of the level-0 domain (the tool derives
                           # the cell size of its coordinate grids from the second and third grid points)
@@ -72,9 +73,12 @@ def run_scenario(chk, sc, cfgseed, fields, axes):
     a1, a2 = axes
     dx = gamma.level_dx(cfg_, 2, lim)
     for name, ax in (("x", 0), ("y", 1)):
-        want = np.array([cfg_.origin[ax] + dx[ax] * (k + 0.5) for k in range(shape[ax])])
+        glo, ghi = gamma.geo(ap, cfg_)
+        want = np.array([glo[ax] + dx[ax] * (k + 0.5) for k in range(shape[ax])])
         got = np.asarray(out.get(name))
-        if got.shape != want.shape or not np.allclose(got, want, rtol=1e-12, atol=1e-12 * abs(dx[ax])):
+        # rounded header numbers are not consistent with each other to better than their last digit
+        atol = 1e-12 * abs(dx[ax]) if cfg_.numfmt == "repr" else 2e-5 * max(abs(glo[ax]), abs(ghi[ax]), ghi[ax] - glo[ax])
+        if got.shape != want.shape or not np.allclose(got, want, rtol=1e-12, atol=atol):
             return "coordinate grid %s = %r, cell centres are %r" % (name, got, want)
     names = list(NAMES) if fields == ["all"] else [f for f in fields if f != "grid_level"]
     want_grid = fields == ["all"] or "grid_level" in fields
